@@ -8,6 +8,6 @@ CONSTANTS MaxDepth = 0
           CbBelow = 1
           AuxDepth = 0
           Lean = TRUE
-          Repaired = {7, 9}
+          Repaired = {7, 9, 10}
 INVARIANTS DAndEmit EmitOpts
 CHECK_DEADLOCK FALSE
